@@ -1069,6 +1069,22 @@ theorem C08_majority_filter_layout_free (n : Nat) (mA₁ mA₂ : Int → Int) (v
     majorityView n mA₁ vA₁ = majorityView n mA₂ vA₂ := by
   rw [majorityView_eq_logical, majorityView_eq_logical, hA.toImg_eq]
 
+/-- **majority_filter, pointwise, for any memory layout.** For a `rows × cols` view of ANY strides and a window `N ≤ rows, cols`:
+cell `i` of the output is `some true` exactly when some window the loops visit (`y < rows−N`, `x < cols−N` — the last window row and
+column are not visited, as in the C++) whose output position `(y+N/2)*cols + N/2 + x` is `i` contains at least `N*N/2` set pixels of
+the LOGICAL image; every other cell is `some false`. -/
+theorem C08_majority_filter_view_spec (n : Nat) (mA : Int → Int) (vA : View) (rows cols : Nat) (hs : vA.shape = [rows, cols])
+    (hr : n ≤ rows) (hc : n ≤ cols) (i : Nat) (hi : i < rows * cols) :
+    (majorityView n mA vA).getD i none =
+      some ((List.range (rows - n)).any fun y => (List.range (cols - n)).any fun x =>
+        decide (majorityCount n (fun y x => (toImg mA vA).getD [(y : Int), (x : Int)] 0 != 0) y x ≥ n * n / 2) &&
+          ((y + n / 2) * cols + n / 2 + x == i)) := by
+  rw [majorityView_eq_logical]
+  unfold majorityLogical
+  have : (toImg mA vA).shape = [rows, cols] := hs
+  rw [this]
+  exact majorityLoops_spec rows cols n _ hr hc i hi
+
 /-- **F15 for regmax/regmin, close_holes, majority_filter**: every cell of their outputs is written, for every layout:
 the first two are `….map some` of a total model, the third starts from the zero fill and only ever stores `true`. -/
 theorem C08_defined_everywhere_morph_at_kernels (isMin : Bool) (n : Nat) (mA : Int → Int) (vA : View)
